@@ -205,6 +205,18 @@ func H_C17_no_inputs() {
 	c17register()
 	req := singleModel{Name: "ZZLinear"}
 	req.Parameters = append(req.Parameters, modelValue{"gain", vsym.Float64("gain")})
+	// no usable input: none listed / only names the model does not know / a known name without values
+	kind := vsym.Int("kind")
+	vsym.Assume(kind >= 0 && kind <= 3)
+	kind = vsym.Concrete(kind)
+	switch kind {
+	case 1:
+		req.Inputs = append(req.Inputs, modelInput{"Rain", []float64{vsym.Float64("v"), 2}})
+	case 2:
+		req.Inputs = append(req.Inputs, modelInput{"a", nil})
+	case 3:
+		req.Inputs = append(req.Inputs, modelInput{"unrelated", []float64{1}}, modelInput{"alsoUnknown", []float64{1, 2, 3}})
+	}
 	resp, docs := c17call(&req, false, false)
 	vsym.Reach("responded")
 	vsym.Assert(docs == 1, "exactly-one-response-document")
